@@ -16,6 +16,7 @@ import (
 	"strconv"
 	"strings"
 	"testing"
+	"unicode/utf8"
 )
 
 func TestVerifReplay(t *testing.T) { t.Log("NO-ORACLE") }
@@ -371,32 +372,10 @@ func verifClose(a, b float64) bool {
 	return math.Abs(a-b) <= 1e-9*math.Max(math.Abs(a), math.Abs(b))
 }
 
-func verifPipeline(t *testing.T, tier string) {
-	n, fails := 0, 0
-	bad := func(f string, args ...any) {
-		fails++
-		if fails <= 12 {
-			t.Errorf("REPLAY-FAIL "+f, args...)
-		}
-	}
-	seed := uint64(7)
-	if s := os.Getenv("VERIF_SEED"); s != "" {
-		if v, err := strconv.ParseUint(s, 10, 64); err == nil {
-			seed = v
-		}
-	}
-	rnd := func(k int) int {
-		seed = seed*6364136223846793005 + 1442695040888963407
-		return int((seed >> 33) % uint64(k))
-	}
-	rounds := 200
-	if tier == "thorough" {
-		rounds = 3000
-	}
-	dir := t.TempDir()
-	settings := verifSettings()
-	names := []string{"X", "X-8", "Y/size=1", "Y/size=2", "Y/size=1-8", "Z"}
-	for round := 0; round < rounds; round++ {
+
+// verifGenInputs writes 1-3 benchmark files and returns the benchstat arguments
+// (labelled paths) together with the measurements the files contain.
+func verifGenInputs(rnd func(int) int, dir string, round int, names []string) ([]string, []*verifMeas) {
 		// generate the input files and, alongside, the measurements they contain
 		var meas []*verifMeas
 		var args []string
@@ -459,10 +438,40 @@ func verifPipeline(t *testing.T, tier string) {
 			}
 			p := filepath.Join(dir, fmt.Sprintf("r%d-f%d.txt", round, f))
 			if err := os.WriteFile(p, []byte(b.String()), 0666); err != nil {
-				t.Fatal(err)
+				panic(err)
 			}
 			args = append(args, label+"="+p)
 		}
+	return args, meas
+}
+
+func verifPipeline(t *testing.T, tier string) {
+	n, fails := 0, 0
+	bad := func(f string, args ...any) {
+		fails++
+		if fails <= 12 {
+			t.Errorf("REPLAY-FAIL "+f, args...)
+		}
+	}
+	seed := uint64(7)
+	if s := os.Getenv("VERIF_SEED"); s != "" {
+		if v, err := strconv.ParseUint(s, 10, 64); err == nil {
+			seed = v
+		}
+	}
+	rnd := func(k int) int {
+		seed = seed*6364136223846793005 + 1442695040888963407
+		return int((seed >> 33) % uint64(k))
+	}
+	rounds := 200
+	if tier == "thorough" {
+		rounds = 3000
+	}
+	dir := t.TempDir()
+	settings := verifSettings()
+	names := []string{"X", "X-8", "Y/size=1", "Y/size=2", "Y/size=1-8", "Z"}
+	for round := 0; round < rounds; round++ {
+		args, meas := verifGenInputs(rnd, dir, round, names)
 		for si, set := range settings {
 			var out, errOut bytes.Buffer
 			full := append(append([]string{"-format", "csv"}, set.args...), args...)
@@ -667,4 +676,330 @@ func verifPipeline(t *testing.T, tier string) {
 	fmt.Printf("BOUNDED-RESULT {\"cases\": %d, \"failures\": %d, \"bound\": \"%d random input sets (1-3 labelled files, changing goos/note configuration, 6 benchmark names with /size and gomaxprocs, two units, 1-6 repetitions, distinct values) x %d flag settings\", \"exhaustive\": false}\n", n, fails, rounds, len(settings))
 }
 
-func verifTextCSV(t *testing.T, tier string) { t.Skip("not yet") }
+// ---------------------------------------------------------------------------
+// C16: the text rendering agrees with the CSV rendering and is laid out in columns.
+
+type verifTok struct {
+	text       string
+	start, end int // rune offsets
+}
+
+func verifFields(line string) []verifTok {
+	var out []verifTok
+	pos := 0
+	cur := -1
+	var sb strings.Builder
+	for _, r := range line {
+		if r == ' ' {
+			if cur >= 0 {
+				out = append(out, verifTok{sb.String(), cur, pos})
+				cur = -1
+				sb.Reset()
+			}
+		} else {
+			if cur < 0 {
+				cur = pos
+			}
+			sb.WriteRune(r)
+		}
+		pos++
+	}
+	if cur >= 0 {
+		out = append(out, verifTok{sb.String(), cur, pos})
+	}
+	return out
+}
+
+func verifIsSuper(s string) bool {
+	for _, r := range s {
+		if !strings.ContainsRune("⁰¹²³⁴⁵⁶⁷⁸⁹", r) {
+			return false
+		}
+	}
+	return s != ""
+}
+
+var verifPrefixes = map[string]float64{"": 1, "n": 1e-9, "µ": 1e-6, "m": 1e-3, "k": 1e3, "M": 1e6, "G": 1e9, "T": 1e12,
+	"Ki": 1024, "Mi": 1024 * 1024, "Gi": 1024 * 1024 * 1024}
+
+// verifScaled parses "102.5n" into its value and the value of one unit in the last printed digit.
+func verifScaled(s string) (v, ulp float64, ok bool) {
+	i := 0
+	for i < len(s) && (s[i] >= '0' && s[i] <= '9' || s[i] == '.' || s[i] == '-' || s[i] == '+') {
+		i++
+	}
+	num, suffix := s[:i], s[i:]
+	mult, okp := verifPrefixes[suffix]
+	if !okp {
+		return 0, 0, false
+	}
+	f, err := strconv.ParseFloat(num, 64)
+	if err != nil {
+		return 0, 0, false
+	}
+	dec := 0
+	if j := strings.IndexByte(num, '.'); j >= 0 {
+		dec = len(num) - j - 1
+	}
+	return f * mult, math.Pow(10, -float64(dec)) * mult, true
+}
+
+func verifTextCSV(t *testing.T, tier string) {
+	n, fails := 0, 0
+	bad := func(f string, args ...any) {
+		fails++
+		if fails <= 12 {
+			t.Errorf("REPLAY-FAIL "+f, args...)
+		}
+	}
+	seed := uint64(11)
+	if s := os.Getenv("VERIF_SEED"); s != "" {
+		if v, err := strconv.ParseUint(s, 10, 64); err == nil {
+			seed = v
+		}
+	}
+	rnd := func(k int) int {
+		seed = seed*6364136223846793005 + 1442695040888963407
+		return int((seed >> 33) % uint64(k))
+	}
+	rounds := 150
+	if tier == "thorough" {
+		rounds = 3000
+	}
+	dir := t.TempDir()
+	names := []string{"X", "X-8", "Y/size=1", "Y/size=2", "Y/size=1-8", "Z", "Größe/日本=語"}
+	flagSets := [][]string{nil, {"-row", ".name", "-col", "/size"}, {"-table", "goos"}, {"-col", ".file,goos"}, {"-col", "goos,note"}}
+	colFieldsOf := []int{1, 1, 1, 2, 2}
+	for round := 0; round < rounds; round++ {
+		args, _ := verifGenInputs(rnd, dir, round, names)
+		for fi, fl := range flagSets {
+			var txt, txtErr, csvOut, csvErr bytes.Buffer
+			if err := benchstat(&txt, &txtErr, append(append([]string{}, fl...), args...)); err != nil {
+				bad("round %d: text: %v", round, err)
+				continue
+			}
+			if err := benchstat(&csvOut, &csvErr, append(append([]string{"-format", "csv"}, fl...), args...)); err != nil {
+				bad("round %d: csv: %v", round, err)
+				continue
+			}
+			ctabs, err := verifParseCSV(csvOut.String(), colFieldsOf[fi])
+			if err != nil {
+				bad("round %d flags %v: cannot parse CSV: %v", round, fl, err)
+				continue
+			}
+			// CSV rows in order (verifParseCSV keeps maps; re-read the order from the raw records)
+			r := csv.NewReader(strings.NewReader(csvOut.String()))
+			r.FieldsPerRecord = -1
+			recs, _ := r.ReadAll()
+			var csvLabels [][]string // per table: row labels in order, without geomean
+			{
+				var cur []string
+				inTable := false
+				for _, rec := range recs {
+					switch {
+					case len(rec) >= 3 && rec[0] == "" && rec[2] == "CI":
+						inTable = true
+						cur = nil
+					case inTable && rec[0] == "geomean":
+						csvLabels = append(csvLabels, cur)
+						inTable = false
+					case inTable:
+						cur = append(cur, rec[0])
+					}
+				}
+			}
+			// split the text into table blocks
+			type block struct {
+				hdrRows, dataRows, foot []string
+				geomean                 string
+			}
+			var blocks []*block
+			var cur *block
+			lines := strings.Split(strings.TrimSuffix(txt.String(), "\n"), "\n")
+			for _, line := range lines {
+				n++
+				// (table-key headings such as "note: " with an empty value are not table lines)
+				if strings.HasSuffix(line, " ") && !(strings.HasSuffix(line, ": ") && !strings.Contains(line, "│")) {
+					bad("round %d flags %v: line %q ends in blanks", round, fl, line)
+				}
+				first := ""
+				if f := verifFields(line); len(f) > 0 {
+					first = f[0].text
+				}
+				switch {
+				case strings.Contains(line, "│"):
+					if cur == nil || len(cur.dataRows) > 0 || cur.geomean != "" {
+						cur = &block{}
+						blocks = append(blocks, cur)
+					}
+					cur.hdrRows = append(cur.hdrRows, line)
+				case line == "":
+					cur = nil
+				case verifIsSuper(first):
+					if cur != nil {
+						cur.foot = append(cur.foot, line)
+					}
+				case cur != nil && first == "geomean":
+					cur.geomean = line
+				case cur != nil && len(cur.hdrRows) > 0 && !(strings.Contains(line, ": ") && !strings.Contains(line, "±")):
+					cur.dataRows = append(cur.dataRows, line)
+				default:
+					cur = nil // a "key: value" heading
+				}
+			}
+			n++
+			if len(blocks) != len(ctabs) {
+				bad("round %d flags %v: text has %d tables, CSV has %d\n%s\n%s", round, fl, len(blocks), len(ctabs), txt.String(), csvOut.String())
+				continue
+			}
+			var textWarn []string
+			for ti, b := range blocks {
+				ct := ctabs[ti]
+				labels := csvLabels[ti]
+				n++
+				if len(b.dataRows) != len(labels) {
+					bad("round %d flags %v table %d: text has %d rows, CSV has %d\n%s", round, fl, ti, len(b.dataRows), len(labels), txt.String())
+					continue
+				}
+				// separators: every header row has a rule at the same offsets as the unit row
+				unitRow := b.hdrRows[len(b.hdrRows)-1]
+				var rules []int
+				pos := 0
+				for _, r := range unitRow {
+					if r == '│' {
+						rules = append(rules, pos)
+					}
+					pos++
+				}
+				if len(rules) != len(ct.cols)+1 {
+					bad("round %d flags %v table %d: unit row has %d rules for %d columns: %q", round, fl, ti, len(rules), len(ct.cols), unitRow)
+					continue
+				}
+				for _, h := range b.hdrRows {
+					n++
+					pos := 0
+					for _, r := range h {
+						if r == '│' {
+							found := false
+							for _, x := range rules {
+								if x == pos {
+									found = true
+								}
+							}
+							if !found {
+								bad("round %d flags %v table %d: header rule at offset %d is not a column boundary %v\n%s", round, fl, ti, pos, rules, strings.Join(b.hdrRows, "\n"))
+							}
+						}
+						pos++
+					}
+					if utf8.RuneCountInString(h) != rules[len(rules)-1]+1 {
+						bad("round %d flags %v table %d: header line does not end at the right rule: %q", round, fl, ti, h)
+					}
+				}
+				numEnd := map[int]int{}
+				for ri, line := range b.dataRows {
+					label := labels[ri]
+					n++
+					if !strings.HasPrefix(line, label) {
+						bad("round %d flags %v table %d: text row %q does not start with the CSV label %q", round, fl, ti, line, label)
+						continue
+					}
+					skip := utf8.RuneCountInString(label)
+					var toks []verifTok
+					for _, tk := range verifFields(line) {
+						if tk.start >= skip && !verifIsSuper(tk.text) {
+							toks = append(toks, tk)
+						}
+					}
+					cells := ct.rows[label]
+					k := 0
+					next := func() *verifTok {
+						if k < len(toks) {
+							k++
+							return &toks[k-1]
+						}
+						return &verifTok{"<missing>", -1, -1}
+					}
+					for e := 0; e < len(ct.cols); e++ {
+						c, ok := cells[e]
+						if !ok {
+							continue
+						}
+						num := next()
+						cv, _ := strconv.ParseFloat(c.center, 64)
+						tv, ulp, okn := verifScaled(num.text)
+						if !okn || math.Abs(tv-cv) > 0.5*ulp*(1+1e-9)+1e-12*math.Abs(cv) {
+							bad("round %d flags %v table %d row %q column %d: text shows %q, CSV value is %s", round, fl, ti, label, e, num.text, c.center)
+						}
+						// the number lies inside its column's rules and right-aligned numbers share their end offset
+						if num.start <= rules[e] || num.end > rules[e+1] {
+							bad("round %d flags %v table %d row %q column %d: %q at [%d,%d) is outside its column (%d,%d]\n%s", round, fl, ti, label, e, num.text, num.start, num.end, rules[e], rules[e+1], txt.String())
+						}
+						if prev, ok := numEnd[e]; ok && prev != num.end {
+							bad("round %d flags %v table %d column %d: numbers end at offsets %d and %d\n%s", round, fl, ti, e, prev, num.end, txt.String())
+						}
+						numEnd[e] = num.end
+						if pm := next(); pm.text != "±" {
+							bad("round %d flags %v table %d row %q column %d: expected ± after the value, found %q in %q", round, fl, ti, label, e, pm.text, line)
+						}
+						if ci := next(); ci.text != c.ci {
+							bad("round %d flags %v table %d row %q column %d: text interval %q, CSV %q", round, fl, ti, label, e, ci.text, c.ci)
+						}
+						if c.hasCmp {
+							if d := next(); d.text != c.delta {
+								bad("round %d flags %v table %d row %q column %d: text delta %q, CSV %q", round, fl, ti, label, e, d.text, c.delta)
+							}
+							var parts []string
+							for _, w := range strings.Fields("(" + c.cmp + ")") {
+								parts = append(parts, w)
+							}
+							for _, w := range parts {
+								if g := next(); g.text != w {
+									bad("round %d flags %v table %d row %q column %d: text comparison token %q, CSV %q", round, fl, ti, label, e, g.text, w)
+								}
+							}
+							if last := toks[k-1]; last.end > rules[e+1] {
+								bad("round %d flags %v table %d row %q column %d: comparison runs past the column rule\n%s", round, fl, ti, label, e, txt.String())
+							}
+						}
+					}
+					if k != len(toks) {
+						bad("round %d flags %v table %d row %q: %d unexpected extra tokens in text row %q", round, fl, ti, label, len(toks)-k, line)
+					}
+				}
+				for _, f := range b.foot {
+					fs := verifFields(f)
+					if len(fs) > 1 {
+						textWarn = append(textWarn, strings.TrimSpace(strings.SplitN(f, " ", 2)[1]))
+					}
+				}
+			}
+			// the set of warning messages is the same in both renderings
+			var csvWarn []string
+			seen := map[string]bool{}
+			for _, l := range strings.Split(csvErr.String(), "\n") {
+				if i := strings.Index(l, ": "); i >= 0 {
+					seen[l[i+2:]] = true
+				}
+			}
+			for w := range seen {
+				csvWarn = append(csvWarn, w)
+			}
+			seenT := map[string]bool{}
+			for _, w := range textWarn {
+				seenT[w] = true
+			}
+			textWarn = textWarn[:0]
+			for w := range seenT {
+				textWarn = append(textWarn, w)
+			}
+			sort.Strings(csvWarn)
+			sort.Strings(textWarn)
+			n++
+			if strings.Join(csvWarn, " | ") != strings.Join(textWarn, " | ") {
+				bad("round %d flags %v: text footnotes %q, CSV warnings %q", round, fl, textWarn, csvWarn)
+			}
+		}
+	}
+	fmt.Printf("BOUNDED-RESULT {\"cases\": %d, \"failures\": %d, \"bound\": \"%d random input sets x %d flag settings, text and CSV renderings compared\", \"exhaustive\": false}\n", n, fails, rounds, len(flagSets))
+}
